@@ -248,6 +248,11 @@ def stage_contracts(stage, fm, log):
             # net.converged, or raises PipeflowNotConverged with net.converged False
             net = args[0]
             log.append(name)
+            # ... and in both cases has dropped the cached matrix structure unless reuse_internal_data is set
+            # (the clause proved for every exit of the stage in C12/cache_dropped_on_every_exit)
+            reuse = net.items["_options"].get("reuse_internal_data")
+            if "_internal_data" in net.items and reuse is not True and not (is_z3(reuse) and ev.decide(reuse)):
+                net.items.pop("_internal_data", None)
             if ev.decide(z3.Bool("rerun_raises")):
                 net.items["converged"] = False
                 raise E._Raise(E.ExcVal("PipeflowNotConverged"))
